@@ -902,6 +902,26 @@ def count_functions(ctx):
             continue
         if cases.get(('T',)) == {f'len({p}.parts)'} and cases.get(('F',)) == {'1'}:
             out.setdefault(nm, []).append((c, p))
+    # ... and module-level functions of one parameter (`def _count_parts(part)` next to class Batch), read off their statements
+    for m in P.mods.values():
+        for nm, fn in m.functions.items():
+            params = [a.arg for a in fn.args.args]
+            if len(params) != 1 or fn.args.vararg or fn.args.kwarg or fn.decorator_list:
+                continue
+            p = params[0]
+            body = [s_ for s_ in fn.body if not (isinstance(s_, ast.Expr) and isinstance(s_.value, ast.Constant))]
+
+            def is_batch_test(t, p=p):
+                return isinstance(t, ast.Call) and ast.unparse(t.func) == 'isinstance' and len(t.args) == 2 and ast.unparse(t.args[0]) == p and ast.unparse(t.args[1]) == 'Batch'
+            yes = no = None
+            if len(body) == 1 and isinstance(body[0], ast.Return) and isinstance(body[0].value, ast.IfExp) and is_batch_test(body[0].value.test):
+                yes, no = body[0].value.body, body[0].value.orelse
+            elif body and isinstance(body[0], ast.If) and is_batch_test(body[0].test) and len(body[0].body) == 1 and isinstance(body[0].body[0], ast.Return):
+                rest = body[0].orelse if body[0].orelse else body[1:]
+                if len(rest) == 1 and isinstance(rest[0], ast.Return) and (not body[0].orelse or len(body) == 1):
+                    yes, no = body[0].body[0].value, rest[0].value
+            if yes is not None and no is not None and ast.unparse(yes) == f'len({p}.parts)' and ast.unparse(no) == '1':
+                out.setdefault(nm, []).append((None, p))
     changed = True
     while changed:
         changed = False
@@ -909,9 +929,20 @@ def count_functions(ctx):
             if nm in out and any(k is c for k, _ in out[nm]):
                 continue
             body = [s_ for s_ in fn.body if not (isinstance(s_, ast.Expr) and isinstance(s_.value, ast.Constant))]
-            if len(body) == 1 and isinstance(body[0], ast.Return) and isinstance(body[0].value, ast.Call) and isinstance(body[0].value.func, ast.Attribute) \
-                    and body[0].value.func.attr in out and [ast.unparse(a) for a in body[0].value.args] == [p] and not body[0].value.keywords:
+            if len(body) == 1 and isinstance(body[0], ast.Return) and isinstance(body[0].value, ast.Call) and isinstance(body[0].value.func, (ast.Attribute, ast.Name)) \
+                    and call_attr(body[0].value) in out and [ast.unparse(a) for a in body[0].value.args] == [p] and not body[0].value.keywords:
                 out.setdefault(nm, []).append((c, p))
                 changed = True
     P.__dict__['_sa_count_functions'] = out
     return out
+
+
+def reset_functions(P, Env):
+    """names of the methods that make up "the reset" of the environment: the method(s) that store the constant 0 into the clock, and the private
+    helpers only they call (`self._reset_event_queues()`)"""
+    from . import inventory as inv
+    base = set()
+    for s_ in inv.attr_stores(P, '_now'):
+        if s_.cls is Env and s_.func is not None and isinstance(s_.stmt, ast.Assign) and isinstance(s_.stmt.value, ast.Constant) and s_.stmt.value.value == 0:
+            base.add(s_.func.name)
+    return base, (inv.covered(P, base) if base else set())
